@@ -32,7 +32,88 @@ const fixedDefs = `
 func (p *Prog) BuildQuery(o *Obligation, getModel []string) string {
 	asserts := append([]*Term{}, o.Facts[:o.NFacts]...)
 	asserts = append(asserts, Not(o.Goal))
+	asserts = append(asserts, p.unfoldInstances(asserts, 3, 400)...)
 	return p.buildScript(asserts, getModel)
+}
+
+// unfoldInstances adds ground instances f(args) = body[args] of the defining equations of
+// translated recursive spec functions for the applications occurring in the assertions
+// ("fuel"-bounded). Adding true instances only strengthens the hypotheses.
+func (p *Prog) unfoldInstances(asserts []*Term, fuel int, limit int) []*Term {
+	var out []*Term
+	done := map[int]bool{}
+	frontier := asserts
+	for round := 0; round < fuel && len(out) < limit; round++ {
+		var apps []*Term
+		collectSyms(frontier, func(t *Term) {
+			if t.open || done[t.id] {
+				return
+			}
+			sd, ok := p.specs[t.Head]
+			if !ok || sd.Raw != "" || len(t.Args) != len(sd.Params) || len(t.Args) == 0 {
+				return
+			}
+			p.ensureSpec(t.Head)
+			if sd.Body == nil || !p.specIsRecursive(t.Head) {
+				return
+			}
+			done[t.id] = true
+			apps = append(apps, t)
+		})
+		var next []*Term
+		for _, a := range apps {
+			if len(out) >= limit {
+				break
+			}
+			sd := p.specs[a.Head]
+			m := map[*Term]*Term{}
+			for i, f := range sd.Formals {
+				m[f] = a.Args[i]
+			}
+			inst := Eq(a, Subst(sd.Body, m))
+			out = append(out, inst)
+			next = append(next, inst)
+		}
+		frontier = next
+		if len(next) == 0 {
+			break
+		}
+	}
+	return out
+}
+
+func (p *Prog) specIsRecursive(name string) bool {
+	if p.recSpec == nil {
+		p.recSpec = map[string]bool{}
+	}
+	if v, ok := p.recSpec[name]; ok {
+		return v
+	}
+	// reachable from itself through Deps?
+	seen := map[string]bool{}
+	var reach func(n string) bool
+	reach = func(n string) bool {
+		sd := p.specs[n]
+		if sd == nil {
+			return false
+		}
+		p.ensureSpec(n)
+		for _, d := range sd.Deps {
+			if d == name {
+				return true
+			}
+			if !seen[d] {
+				seen[d] = true
+				if reach(d) {
+					return true
+				}
+			}
+		}
+		return false
+	}
+	r := reach(name)
+	p.recSpec[name] = r
+	return r
 }
 
 func (p *Prog) buildScript(asserts []*Term, getValues []string) string {
@@ -160,6 +241,14 @@ func (p *Prog) axiomText(ufs map[string]bool) string {
 			fmt.Fprintf(&sb, "(assert (forall ((a %s) (n Int) (i Int) (j Int)) (! (=> (and (<= 0 i) (< i j) (< j n)) (not "+lt+")) :pattern ((select (%[2]s a n) i) (select (%[2]s a n) j)))))\n", as, fn)
 		}
 	}
+	for id, es := range p.copyAxioms {
+		cf := "copied_" + id
+		if !ufs[cf] {
+			continue
+		}
+		as := "(Array Int " + es.S + ")"
+		fmt.Fprintf(&sb, "(assert (forall ((d %s) (s %s) (n Int) (j Int)) (! (= (select (%s d s n) j) (ite (and (<= 0 j) (< j n)) (select s j) (select d j))) :pattern ((select (%s d s n) j)))))\n", as, as, cf, cf)
+	}
 	for id, es := range p.permAxioms {
 		fn, pf := "permuted_"+id, "sortPerm_"+id
 		if !ufs[fn] {
@@ -184,6 +273,7 @@ type solverSpec struct {
 
 var solvers = []solverSpec{
 	{"z3-new", []string{"z3-new", "-smt2"}},
+	{"z3-new-ematch", []string{"z3-new", "-smt2", "smt.auto_config=false", "smt.mbqi=false"}},
 	{"z3", []string{"z3", "-smt2"}},
 	{"cvc5", []string{"cvc5", "--lang=smt2", "--dt-nested-rec", "--fp-exp"}},
 }
